@@ -2253,3 +2253,48 @@ def gen_flood_inexact(quick, thorough, kinds=("dt", "cdt"), f32_share=0.25):
 
 PROPS["C16"]["gen"] = gen_union(PROPS["C16"]["gen"], gen_flood_inexact(200, 3000))
 
+
+def gen_shape_extreme(quick, thorough):
+    """rectangle / circle queries with extreme parameters on small integer triangulations: "select everything" rectangles and half planes with
+    corners at +-1e308, +-f64::MAX (f32: +-f32::MAX, +-1e38), quadrants, circles with huge radii; f32 lattices scaled by 2^20 .. 2^60 with circle
+    queries (intermediate products must not overflow). The documented answer is decided exactly."""
+    FMAX, F32MAX = 1.7976931348623157e308, 3.4028234663852886e38
+    def g(r, tier):
+        out = []
+        for i in range(n_cases(tier, quick, thorough)):
+            kind, scalar, hint = gen.pick_cfg(r, ("dt", "cdt"), 0.4)
+            f32 = scalar == "f32"
+            c = Case("e%d" % i, kind, scalar, hint)
+            c.meta = {"style": "shape-extreme", "kind": kind, "scalar": scalar, "hint": hint, "only_tags": ["shape", "parse", "decode"]}
+            sc = 1.0
+            if r.chance(0.4):
+                sc = 2.0 ** (r.choice([20, 44, 60, 100]) if f32 else r.choice([100, 400, 600]))
+            w, h = r.range(2, 5), r.range(2, 5)
+            pts = [(float(x) * sc, float(y) * sc) for x in range(w) for y in range(h) if not r.chance(0.2)]
+            r.shuffle(pts)
+            for j, (x, y) in enumerate(pts):
+                c.ins(x, y, j + 1)
+            big = [F32MAX, 1e38, 2.0 ** 100] if f32 else [FMAX, 1e308, 2.0 ** 600, 2.0 ** 1000]
+            for _ in range(8):
+                k = r.below(5)
+                B = r.choice(big)
+                if k == 0:      # everything
+                    c.add(r.choice(["vrect", "erect"]), bits(-B), bits(-B), bits(B), bits(B))
+                elif k == 1:    # half plane
+                    x = float(r.range(0, w)) * sc
+                    c.add(r.choice(["vrect", "erect"]), bits(x), bits(-B), bits(B), bits(B))
+                elif k == 2:    # quadrant
+                    x, y = float(r.range(0, w)) * sc, float(r.range(0, h)) * sc
+                    c.add(r.choice(["vrect", "erect"]), bits(x), bits(y), bits(B), bits(B))
+                elif k == 3:    # ordinary circle on the (scaled) lattice
+                    x, y = float(r.range(0, w)) * sc + 0.5 * sc, float(r.range(0, h)) * sc
+                    c.add(r.choice(["vcirc", "ecirc"]), bits(x), bits(y), bits(r.choice([0.5, 1.0, 1.5, 2.0]) * sc))
+                else:           # huge circle
+                    c.add(r.choice(["vcirc", "ecirc"]), bits(0.0), bits(0.0), bits(r.choice(big[-2:])))
+            out.append(c)
+        return out
+    return g
+
+# M12: hull iterator model (Query/Hull.v hull_iter / hull_iter_rev) compared order-exactly with convex_hull() / .rev(); clear / clone hooks
+PROPS["C14"]["model"] = True
+PROPS["C14"]["tags"] = PROPS["C14"]["tags"] + ["corr"]
